@@ -29,8 +29,11 @@ def build_target(root, kind):
         darr.asraggedarray(p, [[1.5, 2.5], [], [3.5]], metadata={'m': 1})
     elif kind == 'plaindir':
         os.mkdir(p)
-        with open(os.path.join(p, 'something.txt'), 'w') as f:
-            f.write('user data')
+        # a user's own directory, with files that happen to carry names Darr also uses
+        for name, text in (('something.txt', 'user data'), ('README.txt', 'my notes, not Darr\'s'),
+                           ('metadata.json', '{"mine": true}')):
+            with open(os.path.join(p, name), 'w') as f:
+                f.write(text)
     elif kind == 'file':
         with open(p, 'w') as f:
             f.write('user data in a plain file')
@@ -85,12 +88,23 @@ def delete_case(row, idx):
     root = tempfile.mkdtemp(prefix='darrc16d_')
     bad = []
     try:
+        stale = None
+        if row['form'] == 'staleobject':
+            # a handle from the time the path held an array of the deleter's kind; that array is gone since
+            p0 = os.path.join(root, 'target')
+            if row['fn'] == 'delete_array':
+                stale = darr.asarray(p0, [1.5, 2.5, 3.5], accessmode='r+', metadata={'was': 'here'})
+            else:
+                stale = darr.asraggedarray(p0, [[1, 2], [3]], accessmode='r+', metadata={'was': 'here'})
+            getattr(darr, row['fn'])(p0)
         p = build_target(root, row['kind'])
         own, ext = ([], None)
         if row['foreign'] != 'none':
             own, ext = plant(root, p, row['foreign'], row['loc'])
         fn = getattr(darr, row['fn'])
-        if row['form'] == 'object':
+        if stale is not None:
+            arg = stale
+        elif row['form'] == 'object':
             arg = (darr.Array if row['kind'] == 'Array' else darr.RaggedArray)(p, accessmode='r+')
         elif row['form'] == 'str':
             arg = p
@@ -110,7 +124,10 @@ def delete_case(row, idx):
             got = type(e).__name__
         after = disk.snapshot(root)
         v = row['v']
-        if v['out'] != 'Any' and got != v['out']:
+        if v['out'] == 'Raises':
+            if got == 'ok':
+                bad.append(('exception', 'raises', got))
+        elif v['out'] != 'Any' and got != v['out']:
             bad.append(('exception', v['out'], got))
         if v['unchanged'] and before != after:
             bad.append(('tree', 'byte-identical', disk.snapdiff(before, after)[:4]))
